@@ -560,6 +560,9 @@ func c16(c *Ctx) {
 						}
 					}
 				}
+				if len(gp) == 1 {
+					c.R.Check(cfgx.MustPass(gp[0].Block(), w.Block()), site(w)+" after the package reference was looked up", c.pos(w.Pos()), "the write comes after the package owner reference was looked up (and added when found)", "this write happens before the package owner reference is looked up and added: the object is written without the package as owner")
+				}
 				c.R.Check(okW, site(w)+" writes the object holding the package reference", c.pos(w.Pos()), "the object written carries the package owner reference (itself, or through the owner references taken over from it)", "the package owner reference is added to an object this Update does not write: the established object loses the package as owner")
 			}
 		}
